@@ -93,15 +93,9 @@ def wfLevels : Tree → Bool
 def visibleLeaves (t : Tree) : List Leaf :=
   (leavesTop t).filter (fun l => !goShadowed t l.depth l.info.name)
 
-def goKeywords : List String :=
-  ["break", "case", "chan", "const", "continue", "default", "defer", "else", "fallthrough", "for",
-   "func", "go", "goto", "if", "import", "interface", "map", "package", "range", "return", "select",
-   "struct", "switch", "type", "var"]
-
-/-- parameter names are usable: distinct after camel-casing, and not Go keywords -/
+/-- parameter names are usable: pairwise distinct -/
 def wfParamNames (t : Tree) : Bool :=
-  let ns := (visibleLeaves t).map (fun l => Transfer.camelS l.info.name)
-  ns.Nodup && ns.all (fun n => !goKeywords.contains n)
+  ((visibleLeaves t).map (fun l => paramName l.info.name)).Nodup
 
 /-- a skipped field takes part in Go's shadowing but is absent from the generator's list -/
 def topSkipShadows (t : Tree) : Bool :=
